@@ -335,6 +335,7 @@ class ProgramRun:
             subs = choose_subsets_large(len(keys), self.deps(), rng, cap)
         else:
             subs = choose_subsets(keys, rng, cap)
+        file_done = False
         for j, ix in enumerate(subs):
             items = [keys[i] for i in ix]
             if items and rng.random() < 0.18:
@@ -343,7 +344,12 @@ class ProgramRun:
                 items = list(items)
                 items[k] = (items[k][0], perturb(items[k][1], rng))
                 self.ck.count('init: store with a non-sequential value')
-            backend = 'file' if (j % 11 == 5) else 'dict'
+            if self.large:
+                # file_store fsyncs every result it writes: one file-backed state per long program, a small one
+                backend = 'file' if (not file_done and 0 < len(items) <= 80) else 'dict'
+                file_done = file_done or backend == 'file'
+            else:
+                backend = 'file' if (j % 11 == 5) else 'dict'
             self.one_state(items, backend, root)
 
     def prepare(self, items, backend, root):
@@ -418,7 +424,7 @@ class ProgramRun:
         keys = self.R
         n = len(keys)
         self.one_exec([], 'dict', root, True, nwc=rng.choice([1, 2, 3]))
-        if not self.large or rng.random() < 0.34:
+        if not self.large or rng.random() < 0.25:
             self.one_exec([], 'file', root, True, nwc=rng.choice([1, 2, 3]))
         for j in range(k):
             if self.large:
@@ -573,8 +579,8 @@ def run(ck):
                       'cached (jug itself cannot hash deeper ones: notes/strengthen_loader.txt F1)' % lg.Deep.NEAR]
     rng = ck.rng
     nprog = ck.n(200, 2600)
-    ndeep = ck.n(10, 90)
-    niter = ck.n(10, 120)
+    ndeep = ck.n(10, 60)
+    niter = ck.n(10, 80)
     cap = ck.n(36, 80)
     nexec = ck.n(2, 4)
     home = os.environ.get('HOME')
@@ -605,7 +611,7 @@ def run(ck):
                 pr.states(rng, 64 if full else cap, root)
                 pr.executes(rng, root, nexec)
                 if pr.nb > 0:
-                    pr.blocked_runs(rng, root, 2 if (name.startswith('gen') and not ck.tier == 'thorough') else 3)
+                    pr.blocked_runs(rng, root, 2 if name.startswith('gen') else 3)
                 init_cases.append('(%s,\n [%s])' % (pr.term, ';\n  '.join(pr.init_obs)))
                 exec_cases.append('(%s,\n [%s],\n [%s])' % (pr.term, ';\n  '.join(pr.exec_obs), ';\n  '.join(pr.lrun_obs)))
                 init_runs.append(pr)
